@@ -17,3 +17,49 @@ Check (C10_startxref : forall ser s tr s' tr',
     backend s' = pre ++ obj_header (lenN (refs (save_pre s tr))) 0 ++ xs ++ kw_endobj_nl ++ startxref_tail xpos /\
     lenN pre = start s + xpos).
 
+From PdfV Require Import Storage.Syntax Storage.Builder Storage.Reload Storage.BuilderProofs.
+From PdfV Require Syn.Serialize.
+
+Check (C10_valid_struct : forall ps info s' tr',
+  build ps info = Ok (s', tr', None) -> lenN (backend s') < 2 ^ 64 -> valid_struct (backend s') (refs s')).
+
+Check (C10_reload : forall ps info s' tr',
+  Forall page_ok ps -> info_ok info -> lenN ps < 1000000 ->
+  build ps info = Ok (s', tr', None) ->
+  forall member s3, reloaded s' s3 ->
+  exists tree kids,
+    resolve parse_obj member s3 (t_root tr') = Ok (PDict (catalog_dict tree)) /\
+    resolve parse_obj member s3 tree = Ok (PDict (tree_dict kids)) /\
+    Forall2 (page_reloaded member s3 tree) kids ps /\
+    t_info tr' = info /\
+    match info with
+    | Some d => resolve parse_obj member s3 (lenN (refs s') - 2, 0) = Ok (PDict d)
+    | None => True
+    end).
+
+Check (C10_build_state : forall ps s4 cat,
+  build_catalog ps = Ok (s4, cat) ->
+  wf_st s4 /\ start s4 = 0 /\ backend s4 = backend empty_storage /\ lenN (refs s4) = 3 * lenN ps + 3 /\
+  exists tree kids,
+    clookup (changes s4) (fst cat) = Some (PDict (catalog_dict tree), 0) /\ snd cat = 0 /\ fst cat < lenN (refs s4) /\
+    clookup (changes s4) (fst tree) = Some (PDict (tree_dict kids), 0) /\ snd tree = 0 /\ fst tree < lenN (refs s4) /\
+    Forall2 (page_written s4 tree) kids ps).
+
+Check (C10_load : forall read_classic ps info s' tr' c,
+  build ps info = Ok (s', tr', None) -> lenN ps < 300000 -> lenN (backend s') < 2 ^ 64 ->
+  exists s3 td, load parse_obj read_classic (backend s') c = Ok (s3, td) /\ reloaded s' s3).
+
+(* the definitions the statements are made of (a weakened definition fails here) *)
+Check (eq_refl : valid_struct = fun (b : bytes) (tbl : list xent) =>
+  prefixb HEADER b = true /\
+  nthN tbl 0 = Some (XFree 0 65535) /\
+  (forall id, 0 < id -> id < lenN tbl -> exists pos pre post,
+      nthN tbl id = Some (XRaw pos 0) /\ b = pre ++ obj_header id 0 ++ post /\ lenN pre = pos) /\
+  exists xpos aw bw data xd xs pre,
+    0 < lenN tbl /\ nthN tbl (lenN tbl - 1) = Some (XRaw xpos 0) /\
+    b = pre ++ obj_header (lenN tbl - 1) 0 ++ xs ++ kw_endobj_nl ++ startxref_tail xpos /\ lenN pre = xpos /\
+    write_stream tbl (lenN tbl) = Ok (aw, bw, data) /\
+    read_section 0 (lenN tbl) 1 aw bw data = Ok ((0, tbl), []) /\
+    Serialize.ser (PStreamData xd data) = Ok xs /\
+    (exists size, dget xd k_Size = Some (PInt size) /\ (Z.of_N (lenN tbl) <= size)%Z) /\ dget xd k_Length = Some (pN (lenN data)) /\
+    dget xd k_W = Some (PArr [pN 1; pN aw; pN bw]) /\ dget xd k_Index = Some (PArr [pN 0; pN (lenN tbl)])).
